@@ -32,18 +32,22 @@ def ok_layout(ctx, prog, RID):
     seqs = wire.ok_sequences(prog, wok)
     ctx.floor(RID, "Ok paths of the OK writer", len(seqs), 1)
     for p, cls, ems in seqs:
-        desc = [e.short()[:60] for e in ems]
-        ok = len(ems) == 6 and len(u64s) == 2
-        why = "sequence %s" % desc
+        sb = wire.sym_bytes(ems)
+        desc = wire.sym_str(sb)
+        # 00 | lenenc(rows) | lenenc(last_insert_id) | status bits (u16 LE) | warnings 0000 | one packet end — in whatever grouping of writes
+        ok = len(sb) == 8 and len(u64s) == 2
+        why = "byte stream %s" % desc
         if ok:
+            def is_status(t):
+                return T.is_call(t, r"StatusFlags>::bits$|::bits$") and T.contains(t, lambda x: T.is_param(x))
             checks = [
-                (ems[0].const_bytes() == b"\x00", "header byte must be 00"),
-                (ems[1].kind == "lenenc_int" and T.is_param(ems[1].value, u64s[0]), "affected rows must be the first u64 parameter through the lenenc writer, unmodified (got %s)" % ems[1].short()),
-                (ems[2].kind == "lenenc_int" and T.is_param(ems[2].value, u64s[1]), "last-insert-id must be the second u64 parameter through the lenenc writer, unmodified (got %s)" % ems[2].short()),
-                (ems[3].kind == "fixed" and ems[3].width == 2 and T.is_call(ems[3].value, r"StatusFlags>::bits$|::bits$") and T.contains(ems[3].value, lambda x: T.is_param(x)),
+                (sb[0] == ("c", 0), "header byte must be 00"),
+                (sb[1][0] == "lenenc_int" and T.is_param(sb[1][1], u64s[0]), "affected rows must be the first u64 parameter through the lenenc writer, unmodified (got %s)" % desc),
+                (sb[2][0] == "lenenc_int" and T.is_param(sb[2][1], u64s[1]), "last-insert-id must be the second u64 parameter through the lenenc writer, unmodified (got %s)" % desc),
+                (sb[3][0] == "le" and sb[4][0] == "le" and sb[3][2:] == (0, 2) and sb[4][2:] == (1, 2) and is_status(sb[3][1]) and sb[3][1] == sb[4][1],
                  "status must be the status parameter's bits as u16"),
-                (ems[4].const_bytes() == b"\x00\x00", "warnings must be 0000"),
-                (ems[5].kind == "end_packet", "exactly one packet end after the OK body"),
+                (sb[5] == ("c", 0) and sb[6] == ("c", 0), "warnings must be 0000"),
+                (sb[7] == ("end",), "exactly one packet end after the OK body"),
             ]
             for c, w in checks:
                 if not c:
@@ -65,15 +69,11 @@ def eof_layout(ctx, prog, RID):
     seqs = wire.ok_sequences(prog, weof)
     ctx.floor(RID, "Ok paths of the EOF writer", len(seqs), 1)
     for p, cls, ems in seqs:
-        desc = [e.short()[:60] for e in ems]
-        prefix = b""
-        i = 0
-        while i < len(ems) and ems[i].const_bytes() is not None and ems[i].kind in ("raw", "fixed"):
-            prefix += ems[i].const_bytes()
-            i += 1
-        rest = ems[i:]
-        ok = prefix == b"\xfe\x00\x00" and len(rest) == 2 and rest[0].kind == "fixed" and rest[0].width == 2 and \
-            T.is_call(rest[0].value, r"StatusFlags>::bits$|::bits$") and T.contains(rest[0].value, lambda x: T.is_param(x)) and rest[1].kind == "end_packet"
+        sb = wire.sym_bytes(ems)
+        desc = wire.sym_str(sb)
+        ok = len(sb) == 6 and sb[0] == ("c", 0xFE) and sb[1] == ("c", 0) and sb[2] == ("c", 0) and sb[3][0] == "le" and sb[4][0] == "le" and \
+            sb[3][2:] == (0, 2) and sb[4][2:] == (1, 2) and sb[3][1] == sb[4][1] and \
+            T.is_call(sb[3][1], r"StatusFlags>::bits$|::bits$") and T.contains(sb[3][1], lambda x: T.is_param(x)) and sb[5] == ("end",)
         ctx.ob(RID, ok, "EOF packet: sequence %s (need fe, warnings 0000, the status parameter's bits as u16, one packet end)" % desc, fn=weof.path, construct="eof-layout",
                where=weof.where(p.blocks[-1]), sample={"rule": "eof-layout", "sequence": desc})
 
